@@ -5,10 +5,10 @@ import (
 	"encoding/json"
 	"fmt"
 	"io/fs"
-	"os"
-	"path/filepath"
 	"net/http"
 	"net/http/httptest"
+	"os"
+	"path/filepath"
 	"runtime/debug"
 	"sort"
 	"strings"
@@ -386,8 +386,8 @@ func (pt *point) spec() reqSpec {
 }
 
 type authzWorld struct {
-	sb  *sandbox
-	fx  *fixture
+	sb *sandbox
+	fx *fixture
 	// coverage per oracle class: insufficient / sufficient / preflight
 	part map[string]*partStat
 	// statistics of this shard
